@@ -45,7 +45,9 @@ def runLine (line : String) : String :=
       | some h =>
         match h args it with
         | some v =>
-          let agree := splitToks v.model == it
+          let agree := match v.agreeOverride with
+            | some b => b
+            | none => splitToks v.model == it
           s!"{boolTok agree} {boolTok v.oracle} {boolTok v.nontrivial} | {v.model} | {v.note}"
         | none => "E | unparsable case"
       | none => s!"E | unknown op {op}"
